@@ -32,6 +32,12 @@ def gen(seed, index):
     if rng.random() < 0.04:
         # finding F12: a curve shape that is not 0 but tiny
         rng.choice(e[1:])[2] = g.hexf(rng.choice([1e-13, 1e-15, -1e-15, 1e-17, 3e-16]))
+    steep_at = None
+    if rng.random() < 0.06 and len(e) > 2:
+        # very steep easing (negative shapes of any size are computable, positive ones up to about 700)
+        k = rng.randrange(1, len(e) - 1)
+        e[k][2] = g.hexf(rng.choice([-800, -1000, -5000, 600, -600, 700, 705, -705]))
+        steep_at = k
     if e[0] == "T" and rng.random() < 0.12:
         # a trajectory may touch 0 bpm (a fermata written as a tempo): the value 0 is a number like any other here
         rng.choice(e[1:])[1] = g.hexf(0)
@@ -51,6 +57,13 @@ def gen(seed, index):
                     if not g.near_jump(e, t2):
                         qs.append(["value_at", t2])
                     break
+    if steep_at is not None:
+        pts, durs, total = env_points(e)
+        (a, _, c), d = pts[steep_at - 1], durs[steep_at - 1]
+        for frac in (1000, 700, 300, 50):
+            t = a + max(1, d // frac) if c < 0 else a + d - max(1, d // frac)
+            if a < t < a + d and not g.near_jump(e, t):
+                qs.append(["value_at", t])
     qs.append(["points"])
     if rng.random() < 0.12:
         # decoy stream: before the questions a COPY of the envelope is edited in place and the envelope is split
